@@ -769,6 +769,10 @@ Proof.
   - apply Z.mod_small. lia.
 Qed.
 
+(* with v = 2 the repaired test "lines_left < max_v_samp_factor" coincides with "lines_left <= 1" *)
+Lemma near_eq x : (if gfx6 g then x <? gv g else x <=? 1) = (x <=? 1).
+Proof. rewrite Hv. destruct (gfx6 g); [|reflexivity]. destruct (x <? 2) eqn:A, (x <=? 1) eqn:B; try reflexivity; lia. Qed.
+
 (* the jump: the rest of the current iMCU row (and the already decoded next one) and whole iMCU rows are
    skipped, the remaining 1..L lines are read and discarded *)
 Lemma skip_jump_ok sc bf rc im nr rt cb w cs av ic x0 x1 ph n R1 W :
@@ -784,7 +788,7 @@ Lemma skip_jump_ok sc bf rc im nr rt cb w cs av ic x0 x1 ph n R1 W :
               c_scan st' = sc + n /\ Core (sc + n) true st'.
 Proof.
   intros HnH Hn Hsc0 Hcond Hscan1 HR1 Him Hic Hw Hph HS HW.
-  unfold skip_c. simp_c.
+  unfold skip_c. simp_c. cbv zeta. rewrite ?near_eq.
   assert (E1 : (gH g <=? sc + n) = false) by lia. assert (E2 : (n =? 0) = false) by lia. rewrite E1, E2.
   set (L := gL g) in *. set (ll := (L - sc mod L) mod L) in *. set (la := n - ll) in *.
   rewrite Hcond.
@@ -867,7 +871,7 @@ Proof.
   assert (Hllraw : (gL g - s mod gL g) mod gL g = ll) by reflexivity.
   clearbody ll. clear Hllv.
   destruct ((n <? ll + 1) || ((ll <=? 1) && c_bfull st && (n - ll <? gL g + 1))) eqn:Econd.
-  { unfold skip_c. rewrite Hsc. assert (E1 : (gH g <=? s + n) = false) by lia. assert (E2 : (n =? 0) = false) by lia.
+  { unfold skip_c. cbv zeta. rewrite ?near_eq. rewrite Hsc. assert (E1 : (gH g <=? s + n) = false) by lia. assert (E2 : (n =? 0) = false) by lia.
     rewrite E1, E2, Hllraw, Econd.
     destruct (rad_c (Z.to_nat n) s true st Hsc HC ltac:(lia)) as (A & B). rewrite Z2Nat.id in A, B by lia.
     eexists. split; [reflexivity|]. unfold RelC. splits; auto; lia. }
